@@ -1104,7 +1104,7 @@ impl Property for C16 {
 
     fn fuzz(&self) -> Option<FuzzSpec> {
         // entropy-driven target: libFuzzer's bytes replace the generator's random numbers
-        Some(FuzzSpec { target: "gen", jobs: 8, runs: 500_000, max_len: 4096, seeds: 64 })
+        Some(FuzzSpec { target: "gen", jobs: 8, runs: 30_000, max_len: 4096, seeds: 64 })
     }
 
     fn id(&self) -> &'static str {
